@@ -81,6 +81,11 @@ func lockDiscipline(repo, root, outDir string) map[string]interface{} {
 		}
 		all = append(all, facts...)
 	}
+	uh := funcFacts{Name: userHandler}
+	for _, c := range userHandlerCalls {
+		uh.Calls = append(uh.Calls, callUnder{nil, c})
+	}
+	all = append(all, uh)
 	lockID := map[string]int{"": 0}
 	var lockNames []string
 	lid := func(l string) int {
